@@ -33,6 +33,12 @@
 (*     in the new memtable and are still truncated.                          *)
 (*     Design (Dev = {}): bound = (lowest in-flight sequence) - 1 at         *)
 (*     rotation, next_sequence-1 if nothing is in flight.                    *)
+(*  "inflight_counted_not_tracked"  the in-flight appends are only COUNTED   *)
+(*     and the bound is next_sequence - 1 - count, which assumes they are    *)
+(*     the newest log entries.  Under the batch / periodic policies a later  *)
+(*     append that skips the sync overtakes an earlier one still in its      *)
+(*     sync; if its landing fills the memtable, the rotation truncates the   *)
+(*     overtaken (older, still in flight) entry.                             *)
 (*  "compaction_concurrent_install"  (what the code did, shared with C14)    *)
 (*     _compact is not serialised: a second _compact may start (from another *)
 (*     writer's flush install) while one is waiting for its write latency.   *)
@@ -225,6 +231,7 @@ FlushStart(mm, w) ==
     ELSE LET kept == IF DevOn(mm, "flush_clears_before_install") THEN <<>> ELSE mm.mem
              infl == InFlight(mm)
              bound == IF DevOn(mm, "truncate_bound_at_rotation") \/ infl = {} THEN mm.next - 1
+                      ELSE IF DevOn(mm, "inflight_counted_not_tracked") THEN mm.next - 1 - Cardinality(infl)
                       ELSE MinOf(infl) - 1
          IN Yield([mm EXCEPT !.imm = Append(@, [id |-> mm.memid, d |-> kept]), !.mem = <<>>,
                              !.memid = mm.nid + 1, !.nid = mm.nid + 2,
